@@ -19,6 +19,11 @@
              not in the pre snapshot -- this yields the renaming rho of the model's new ids;
            - rho(model result) = the edge the destination slot holds in the post snapshot (when the slot is
              not overwritten later in the segment); in particular the very same edge when the result existed;
+             (GLUE: whenever the model creates a node these two points are decided by the EXTRACTED, PROVED checker
+             [Model.iso_with] of coq/DD/IsoCheck.v - embedding of the model's table into the post table by an
+             injective renaming that fixes the pre ids and maps the result edge, C20_iso_check_sound/_complete -;
+             the former hand-written matching only words the message when the checker rejects, statistic
+             [iso_disagree] if it finds nothing; GLUE_CROSS=1: also run on every accepted table)
            - the value table of the model's result in the model's post table = the value table of the real
              result in the real post table (prop verdict if not);
            every 8th operation a second time without cache and with the reverse operand order: the same
@@ -37,6 +42,7 @@ open Conv
 open Dd_types
 
 let () = ignore (Array.length Sys.argv)
+let glue_cross = Sys.getenv_opt "GLUE_CROSS" <> None
 
 type opr = { ostep : int; otoks : string list; ores : string }
 
@@ -128,16 +134,21 @@ let () =
               Hashtbl.replace post_ids (id_of p) (l, ch);
               Hashtbl.replace post_by_key (node_key l ch) (id_of p))
             (Model.PositiveMap.elements ps.snap.Model.s_nodes);
+          (* index of the post table for the extracted checker (built when the first node is created) *)
+          let ix = lazy (Model.build_idx ps.snap) in
+          let frame_ok = ref true in
           (* frame *)
           Hashtbl.iter
             (fun id (l, ch) ->
               match Hashtbl.find_opt post_ids id with
               | Some (l', ch') when l = l' && ch = ch' -> ()
               | Some (l', ch') ->
+                frame_ok := false;
                 fail step "corr"
                   (Printf.sprintf "node n%d (level %d, children %s) of the table before the operation is (level %d, children %s) afterwards: an operation that is not a collection or reordering changed a stored node"
                      id l (String.concat " " ch) l' (String.concat " " ch'))
               | None ->
+                frame_ok := false;
                 fail step "corr"
                   (Printf.sprintf "node n%d (level %d, children %s) disappeared during [%s] (no collection in between)" id l
                      (String.concat " " ch) (String.concat "; " (List.map (fun o -> String.concat " " o.otoks) seg))))
@@ -170,7 +181,7 @@ let () =
               None
             | Some (s', r) ->
               let rho : (int, string) Hashtbl.t = Hashtbl.create 16 in
-              let name (e : Model.edge) =
+              let name_hand (e : Model.edge) =
                 match e.Model.eref with
                 | Model.RT _ -> Some (show_edge e)
                 | Model.RN p ->
@@ -181,28 +192,60 @@ let () =
                 else List.filter (fun (p, _) -> not (Hashtbl.mem pre_ids (id_of p))) (Model.PositiveMap.elements s'.Model.s_nodes) in
               let news = List.sort (fun (a, _) (b, _) -> Z.compare (z_of_pos a) (z_of_pos b)) news in
               stat "c02s_model_new_nodes" (List.length news);
-              let missing = ref None in
-              List.iter
-                (fun (p, nd) ->
-                  if !missing = None then (
-                    let chs = List.map name nd.Model.nchildren in
-                    if List.mem None chs then missing := Some (Printf.sprintf "n%d (child not resolved)" (id_of p))
-                    else (
-                      let l = int_of_nat nd.Model.nlevel in
-                      let key = node_key l (List.map Option.get chs) in
-                      match Hashtbl.find_opt post_by_key key with
-                      | Some j when not (Hashtbl.mem pre_ids j) ->
-                        Hashtbl.replace rho (id_of p) ("n" ^ string_of_int j);
-                        Hashtbl.replace covered j ()
-                      | _ -> missing := Some (Printf.sprintf "(level %d, children %s)" l (String.concat " " (List.map Option.get chs))))))
-                news;
+              (* the former hand-written matching: fills [rho] / [covered], returns the first model node without counterpart *)
+              let hand () : string option =
+                let missing = ref None in
+                List.iter
+                  (fun (p, nd) ->
+                    if !missing = None then (
+                      let chs = List.map name_hand nd.Model.nchildren in
+                      if List.mem None chs then missing := Some (Printf.sprintf "n%d (child not resolved)" (id_of p))
+                      else (
+                        let l = int_of_nat nd.Model.nlevel in
+                        let key = node_key l (List.map Option.get chs) in
+                        match Hashtbl.find_opt post_by_key key with
+                        | Some j when not (Hashtbl.mem pre_ids j) ->
+                          Hashtbl.replace rho (id_of p) ("n" ^ string_of_int j);
+                          Hashtbl.replace covered j ()
+                        | _ -> missing := Some (Printf.sprintf "(level %d, children %s)" l (String.concat " " (List.map Option.get chs))))))
+                  news;
+                !missing in
+              let re = { Model.eref = r; Model.etag = false } in
+              let missing, name =
+                if s' == s then (hand (), name_hand)     (* nothing created: the result edge is compared literally *)
+                else begin
+                  stat "iso_extracted_checks" 1;
+                  stat "iso_disagree" 0;
+                  let fixed (p : Model.positive) = Model.find_node s p <> None in
+                  match Model.iso_with (Lazy.force ix) false false fixed s' ps.snap (match d with Some d -> [ (re, d) ] | None -> []) with
+                  | Some rm ->
+                    let name (e : Model.edge) =
+                      match e.Model.eref with
+                      | Model.RT _ -> Some (show_edge e)
+                      | Model.RN p ->
+                        if fixed p then Some (show_edge e)
+                        else (match Model.rmap_find rm p with
+                              | Some b -> Some (show_edge { e with Model.eref = Model.RN b })
+                              | None -> None) in
+                    List.iter
+                      (fun (p, _) -> match Model.rmap_find rm p with Some b -> Hashtbl.replace covered (id_of b) () | None -> ())
+                      news;
+                    if glue_cross && (hand () <> None || (d <> None && name_hand re <> name re)) then stat "iso_disagree" 1;
+                    (None, name)
+                  | None ->
+                    let m = hand () in
+                    if m = None && !frame_ok && (match d with Some d -> name_hand re = Some (show_edge d) | None -> true) then begin
+                      stat "iso_disagree" 1;
+                      (Some "(the extracted checker IsoCheck.iso_with rejects the table; the hand-written matching finds no difference)", name_hand)
+                    end else (m, name_hand)
+                end in
               let tables () =
                 match d with
                 | None -> None
                 | Some d -> (match value_table { pp with snap = s' } { Model.eref = r; Model.etag = false }, value_table ps d with
                              | Some tm, Some ti -> Some (tm, ti) | _ -> None) in
               let differ () = match tables () with Some (tm, ti) when tm <> ti -> Some (tm, ti) | _ -> None in
-              (match !missing with
+              (match missing with
                | Some m ->
                  (match differ () with
                   | Some (tm, ti) ->
